@@ -73,9 +73,10 @@ def random_history(rng):
             n = rng.choice([1, 2, 100, 1000, 4096, 20000, rng.randint(1, 30000)])
             if sent[h] - rcvd[peer[h]] + n > 100000:
                 continue
-            if rng.random() < 0.15 and not nb[h]:
+            planned = rng.random() < 0.15 and not nb[h]
+            if planned:
                 lines.append("plan " + ",".join(rng.choice(["poll:EINTR", "send:EINTR", "send:EAGAIN", "send:SHORT%d" % rng.randint(1, 50)]) for _ in range(rng.randint(1, 3))))
-            lines.append("send %d %d" % (h, n))
+            lines.append("send %d %d%s" % (h, n, " 1" if not planned and rng.random() < 0.3 else ""))      # " 1": through p_socket_send_to
             sent[h] = None if sent[h] is None else sent[h]   # exact count unknown to the generator after short sends
             sent[h] += n
         elif r < 0.6:
@@ -110,7 +111,7 @@ def random_history(rng):
     # drain with generous blocking receives, then orderly end: writer closes, reader sees EOF
     for h in (2, 3):
         lines += ["set %d blocking 1" % h, "set %d timeout 150" % h]
-    lines += ["shutdown 2 0 1", "recv 3 100000", "recv 3 100000", "recv 3 100000", "recv 3 100000", "close 3", "recv 2 100000", "recv 2 100000", "send 2 10", "close 2", "close 1"]
+    lines += ["shutdown 2 0 1", "recv 3 100000", "recv 3 100000", "recv 3 100000", "recv 3 100000", "close 3", "recv 2 100000", "recv 2 100000", "send 2 10", "send 2 10 1", "close 2", "close 1"]
     return lines
 
 
@@ -162,6 +163,16 @@ def life_scenarios(rng):
         # a connection attempt that cannot complete (accept queue full, nobody accepts): timed-out error after T, socket stays unconnected
         s = ["scenario", "new 1 %d tcp" % fam, "set 1 backlog 0", "bind 1", "listen 1", "fill 1", "new 2 %d tcp" % fam, "set 2 timeout 300", "connectfull 2 1", "getters 2",
              "new 7 %d tcp" % fam, "set 7 blocking 0", "connectfull 7 1", "getters 7", "close 2", "connectfull 2 1"]
+        out.append(s)
+        # connect on a connected socket: whatever the repeated call returns, the connection and the getters stay (stream: the OS reports
+        # "already connected" from the second or third call on; datagram: an address of the other family cannot be associated)
+        s = ["scenario"] + tcp_pair(fam) + ["reconnect 2 1", "getters 2", "reconnect 2 1", "reconnect 2 1", "getters 2", "send 2 5", "recv 3 10", "reconnect 2 0", "getters 2",
+                                            "new 7 %d tcp" % fam, "set 7 blocking 0", "connect 7 1", "set 7 timeout 500", "iowait 7 2", "ccr 7", "reconnect 7 1", "reconnect 7 1", "getters 7"] + \
+            udp_pair(fam) + ["connect 5 4", "getters 5", "reconnect 5 0", "getters 5", "reconnect 5 4", "getters 5"]
+        out.append(s)
+        # writing to a peer that has gone yields an error, not a signal - through either send call, however often it is repeated
+        s = ["scenario"] + tcp_pair(fam) + ["send 2 5 1", "recv 3 10", "close 3", "send 2 5 1", "sleepms 30", "send 2 5 1", "send 2 5", "send 2 5 1", "getters 2",
+                                            "new 7 %d tcp" % fam, "connect 7 1", "accept 8 1", "free 8", "send 7 3", "sleepms 30", "send 7 3 1", "send 7 3 1", "send 7 3"]
         out.append(s)
         # blocking without timeout waits until it can proceed: the receiver is parked, then the peer sends
         s = ["scenario"] + tcp_pair(fam) + ["bg recv 3 10", "sleepms 60", "send 2 4", "join", "bg accept 8 1", "sleepms 60", "new 9 %d tcp" % fam, "connect 9 1", "join"]
